@@ -33,4 +33,4 @@ Definition process_includes_now (cwd home : bytes) (fs : fsview) (filename : opt
      | Some f => resolve_include_now cwd home (fs_isfile fs) f
      | None => fun _ => Err AssertionError
      end)
-    (fs_target fs).
+    (fs_target include_cart_lines_kind fs).
